@@ -23,6 +23,12 @@
 // must be reported (exception or Succeeded::no) and leave all data unchanged.  A crash (ASan report, SEGV) of the child
 // is an outcome, it does not kill the shard.
 //
+// Geometries: three full-range ones and DERIVED ones (a clone of a full-range ProjDataInfo after reduce_segment_range(lo,hi), symmetric
+// and asymmetric ranges such as -2..1, -1..0, 0..2 out of -2..2, non-TOF and TOF).  fill(const ProjData&) is in the alphabet with sources
+// of the same geometry (in memory; stream in either storage order, natural / scrambled segment sequence, either byte order) and, for
+// derived targets, with every source of the same family that has MORE segments (in memory, stringstream, file; documented as allowed):
+// the reference after target.fill(source) is "every bin of the target = the source's bin with the same coordinates".
+//
 // State key = (configuration, reference content hash, id of the last operation if it was a read): two histories
 // reaching the same content have the same futures if the implementation is a function of the content; the first step
 // at which it is not is reported, so merging cannot hide it.  The last-read id keeps "write,read,write" interleavings
@@ -81,7 +87,24 @@ struct Geom
   std::vector<int> S2, V2, K2;          // the colliding argument sets
   std::vector<int> std_seq;             // 0,1,-1,2,-2...
   size_t nbins() const { return keys.size(); }
+  // derived geometries: pdi = clone of geometry `root` with reduce_segment_range(smin,smax) (root < 0: not derived)
+  int root = -1;
+  bool symmetric_range() const { return smin == -smax; }
+  bool std_seq_is_prefix_of(const Geom& wider) const { return std_seq.size() <= wider.std_seq.size() && std::equal(std_seq.begin(), std_seq.end(), wider.std_seq.begin()); }
 };
+
+// derived target geometries: segment range [lo,hi] cut out of geometry `root` with ProjDataInfo::reduce_segment_range
+struct Derived { int root, lo, hi; bool quick; };
+static const int NBASE = 4; // 0..2: the full-range geometries of the plans; 3: CylTOF(8,3,5,1) (5 segments, TOF), only a root/source
+static const Derived DERIVED[] = {
+  { 0, -2, 1, true }, { 0, -1, 0, true }, { 0, 0, 2, true }, { 0, -1, 1, true }, // out of Cyl(8,3)span1 -2..2
+  { 2, -1, 0, true }, { 2, 0, 0, true },                                          // out of CylTOF(8,2,5,1) -1..1
+  { 0, 0, 1, false }, { 0, -2, 0, false }, { 0, 0, 0, false },
+  { 2, 0, 1, false },
+  { 3, -2, 1, false }, { 3, 0, 2, false }, { 3, -1, 1, false }, { 3, -1, 0, false }, // out of CylTOF(8,3,5,1) -2..2
+};
+static const int NDERIVED = sizeof(DERIVED) / sizeof(DERIVED[0]);
+static const int NGEOMS = NBASE + NDERIVED;
 
 static Geom make_geom(int gi)
 {
@@ -89,7 +112,19 @@ static Geom make_geom(int gi)
   shared_ptr<Scanner> sc, scf;
   if (gi == 0) { g.name = "Cyl(8,3)span1"; sc = small::cyl_scanner(8, 3); g.pdi = small::make_pdi(sc, 1, 2); scf = small::cyl_scanner(8, 4); g.foreign = small::make_pdi(scf, 1, 3); }
   else if (gi == 1) { g.name = "Cyl(8,3)span3"; sc = small::cyl_scanner(8, 3); g.pdi = small::make_pdi(sc, 3, 2); scf = small::cyl_scanner(8, 4); g.foreign = small::make_pdi(scf, 1, 3); }
-  else { g.name = "CylTOF(8,2,5,1)span1"; sc = small::cyl_scanner(8, 2, 5); g.pdi = small::make_pdi(sc, 1, 1, 0, 0, false, 1); scf = small::cyl_scanner(8, 3, 5); g.foreign = small::make_pdi(scf, 1, 2, 0, 0, false, 1); }
+  else if (gi == 2) { g.name = "CylTOF(8,2,5,1)span1"; sc = small::cyl_scanner(8, 2, 5); g.pdi = small::make_pdi(sc, 1, 1, 0, 0, false, 1); scf = small::cyl_scanner(8, 3, 5); g.foreign = small::make_pdi(scf, 1, 2, 0, 0, false, 1); }
+  else if (gi == 3) { g.name = "CylTOF(8,3,5,1)span1"; sc = small::cyl_scanner(8, 3, 5); g.pdi = small::make_pdi(sc, 1, 2, 0, 0, false, 1); scf = small::cyl_scanner(8, 4, 5); g.foreign = small::make_pdi(scf, 1, 3, 0, 0, false, 1); }
+  else
+    {
+      // a DERIVED object: the ProjDataInfo of a data set with fewer segments, made the way STIR's users (and ProjData::fill itself) make it
+      const Derived& d = DERIVED[gi - NBASE];
+      const Geom r = make_geom(d.root);
+      g.root = d.root;
+      g.name = r.name + "[" + vmc::str(d.lo) + ".." + vmc::str(d.hi) + "]";
+      g.pdi = r.pdi->create_shared_clone();
+      g.pdi->reduce_segment_range(d.lo, d.hi);
+      g.foreign = r.foreign;
+    }
   const ProjDataInfo& p = *g.pdi;
   g.smin = p.get_min_segment_num(); g.smax = p.get_max_segment_num();
   g.vmin = p.get_min_view_num(); g.vmax = p.get_max_view_num();
@@ -107,15 +142,23 @@ static Geom make_geom(int gi)
     }
   for (const Key& k : g.keys) if (g.lin_of(k) != g.lin.at(k)) { fprintf(stderr, "C02: internal error in lin_of\n"); exit(2); }
   auto im = small::make_image(p);
-  g.sym.reset(new DataSymmetriesForBins_PET_CartesianGrid(g.pdi, im));
+  // asymmetric segment range: no segment-swapping symmetry (it would relate viewgrams of segments that do not exist)
+  g.sym.reset(new DataSymmetriesForBins_PET_CartesianGrid(g.pdi, im, true, true, g.symmetric_range(), true, true));
   for (int s = g.smin; s <= g.smax; ++s)
     for (int v = g.vmin; v <= g.vmax; ++v)
       { ViewgramIndices vs(v, s, 0); if (g.sym->is_basic(vs)) g.basic.push_back(vs); }
   g.S2 = { 0, g.smin };                 // segment 0 and the most oblique negative one (different numbers of axial positions)
+  if (g.smin == 0) { g.S2.pop_back(); if (g.smax > 0) g.S2.push_back(g.smax); }
   g.V2 = { g.vmin + 1, g.vmax };
   g.K2 = g.tof() ? std::vector<int>{ g.kmin, 1 } : std::vector<int>{ 0 };
   g.std_seq.push_back(0);
   for (int s = 1; (int)g.std_seq.size() < g.smax - g.smin + 1; ++s) { if (s <= g.smax) g.std_seq.push_back(s); if (-s >= g.smin) g.std_seq.push_back(-s); }
+  // every viewgram related to a basic one must exist in this geometry
+  for (const ViewgramIndices& b : g.basic)
+    {
+      std::vector<ViewSegmentNumbers> pairs; g.sym->get_related_view_segment_numbers(pairs, b);
+      for (auto& vs : pairs) if (vs.segment_num() < g.smin || vs.segment_num() > g.smax) { fprintf(stderr, "C02: internal error: symmetries of %s relate to a segment outside the range\n", g.name.c_str()); exit(2); }
+    }
   return g;
 }
 
@@ -590,8 +633,85 @@ template <class F> static void guarded_write(World& w, const std::string& what, 
 }
 static void ref_set(World& w, const Key& k, float v) { w.ref[k] = v; const int li = w.g->lin_of(k); w.refv[li] = v; w.touched[li] = 1; }
 
-static std::vector<Op> make_ops(const Geom& g, const std::string& store)
+// ---- fill(const ProjData&) from ANOTHER object whose geometry is `sg` (the target's own geometry or one with a larger segment range)
+struct SrcKind
 {
+  char store;   // 'm' ProjDataInMemory, 's' ProjDataFromStream over a stringstream, 'f' ProjDataFromStream over an fstream on a file in the tmpdir
+  int ord;      // storage order of a stream source (0 = Segment_View_AxialPos_TangPos, 1 = Segment_AxialPos_View_TangPos)
+  int seq;      // segment sequence of a stream source: 0 natural (min..max), 1 standard (0,1,-1,..), 2 scrambled
+  bool swapped; // stream source: non-native byte order and (TOF) reversed timing sequence
+  std::string str() const
+  {
+    if (store == 'm') return "ProjDataInMemory";
+    return std::string("ProjDataFromStream over ") + (store == 's' ? "a stringstream" : "a file") + ", storage order " + vmc::str(ord) + ", " + (seq == 0 ? "natural" : seq == 1 ? "standard" : "scrambled") + " segment sequence"
+           + (swapped ? ", other byte order, reversed timing sequence" : "");
+  }
+  const char* cls() const { return store == 'm' ? "inmemory" : store == 's' ? "fromstream" : "fromfile"; }
+};
+// value of bin k of the source: the label of the same bin of the target if the target has it, else a value no bin of the target may ever get
+static float src_val(const World& w, const Geom& sg, const Key& k, int id)
+{
+  return (k[0] >= w.g->smin && k[0] <= w.g->smax) ? w.val(k, id) : -(float)(1 + sg.lin_of(k));
+}
+static void fill_from_other(World& w, const Geom& sg, const SrcKind& kind, int id)
+{
+  const Geom& g = *w.g;
+  shared_ptr<ExamInfo> ex(new ExamInfo(ImagingModality::PT));
+  shared_ptr<ProjData> other;
+  shared_ptr<std::iostream> st;
+  std::string file;
+  if (kind.store == 'm')
+    {
+      ProjDataInMemory* om = new ProjDataInMemory(ex, sg.pdi);
+      other.reset(om);
+      // fill the source through its iterator (documented order of fill_from/copy_to, over the SOURCE's segments)
+      auto it = om->begin_all();
+      for (int k = sg.kmin; k <= sg.kmax; ++k) for (int s : sg.std_seq) for (int a = sg.amin(s); a <= sg.amax(s); ++a) for (int v = sg.vmin; v <= sg.vmax; ++v) for (int t = sg.tmin; t <= sg.tmax; ++t)
+        *it++ = src_val(w, sg, Key{ s, a, v, t, k }, id);
+    }
+  else
+    {
+      // the source is prepared with the harness' own encoder (float on disk)
+      Layout l; l.g = &sg; l.ord = kind.ord; l.ty = &TYPES[0]; l.big = kind.swapped ? !Layout::host_big() : Layout::host_big(); l.off = 0; l.sc = 1;
+      for (int s = sg.smin; s <= sg.smax; ++s) l.sseq.push_back(s);
+      if (kind.seq == 1) l.sseq = sg.std_seq;
+      else if (kind.seq == 2 && l.sseq.size() > 1) { std::rotate(l.sseq.begin(), l.sseq.begin() + 1, l.sseq.end()); std::swap(l.sseq.front(), l.sseq.back()); std::reverse(l.sseq.begin() + 1, l.sseq.end()); }
+      for (int k = sg.kmin; k <= sg.kmax; ++k) l.kseq.push_back(k);
+      if (kind.swapped) std::reverse(l.kseq.begin(), l.kseq.end());
+      l.init();
+      std::map<Key, float> vals; for (const Key& k : sg.keys) vals[k] = src_val(w, sg, k, id);
+      const std::string bytes = l.encode(vals);
+      if (kind.store == 's') st.reset(new std::stringstream(bytes, std::ios::in | std::ios::out | std::ios::binary));
+      else
+        {
+          file = w.ctx->tmpdir + "/c02_src_s" + vmc::str(w.ctx->shard) + "_" + vmc::str((long)getpid()) + ".s";
+          { std::ofstream f(file.c_str(), std::ios::binary | std::ios::trunc); f.write(bytes.data(), (std::streamsize)bytes.size()); }
+          st.reset(new std::fstream(file.c_str(), std::ios::in | std::ios::out | std::ios::binary));
+          if (!*st) { fprintf(stderr, "C02: cannot open %s\n", file.c_str()); exit(2); }
+        }
+      ProjDataFromStream* op = new ProjDataFromStream(ex, sg.pdi, st, 0, l.sseq, kind.ord == 0 ? ProjDataFromStream::Segment_View_AxialPos_TangPos : ProjDataFromStream::Segment_AxialPos_View_TangPos,
+                                                      NumericType(NumericType::FLOAT), l.big ? ByteOrder::big_endian : ByteOrder::little_endian, 1.F);
+      other.reset(op);
+      if (sg.tof() && kind.swapped) op->set_timing_poss_sequence_in_stream(l.kseq);
+    }
+  guarded_write(w, "fill(const ProjData&)", [&] { w.pd->fill(*other); return Succeeded::yes; });
+  // the reference: every bin of the target = the source's bin with the same (segment, axial, view, tangential, TOF) coordinates
+  for (const Key& k : g.keys) ref_set(w, k, src_val(w, sg, k, id));
+  other.reset(); st.reset();
+  if (!file.empty()) unlink(file.c_str());
+  if (&sg != &g)
+    {
+      w.ctx->count("fills_from_a_source_with_more_segments");
+      w.ctx->count(std::string("fills_from_a_source_with_more_segments_") + w.cfg.store + "_from_" + kind.cls());
+      if (!g.symmetric_range()) w.ctx->count("fills_from_a_source_with_more_segments_target_range_asymmetric");
+      if (!g.std_seq_is_prefix_of(sg)) w.ctx->count("fills_from_a_source_with_more_segments_target_sequence_not_a_prefix_of_the_source_sequence");
+      if (g.tof()) w.ctx->count("fills_from_a_source_with_more_segments_tof");
+    }
+}
+
+static std::vector<Op> make_ops(const std::vector<Geom>& geoms, int gi, const std::string& store)
+{
+  const Geom& g = geoms[gi];
   std::vector<Op> ops;
   const bool mem = store == "mem";
   // --- single bins: 4 colliding bins (x 2 TOF bins)
@@ -747,6 +867,27 @@ static std::vector<Op> make_ops(const Geom& g, const std::string& store)
                    } });
     ops.push_back({ "get_segment_by_sinogram(seg " + vmc::str(s0) + ")", "get_segment_by_sinogram", false, [=](World& w, int) { w.read_seg_by_sino(*w.pd, s0, k1); } });
   }
+  // --- bulk fill from another object, continued (appended here so that the operation ids of the older alphabet stay as they were)
+  // equal segment ranges, the OTHER storage order than "fill(other ProjDataFromStream ...)" above, scrambled segment sequence
+  {
+    const SrcKind kind{ 's', 0, 2, true };
+    ops.push_back({ "fill(other " + kind.str() + ")", "fill_projdata_fromstream", true, [&g, kind](World& w, int id) { fill_from_other(w, g, kind, id); } });
+  }
+  // a source with a LARGER segment range (the documentation of ProjData::fill allows it): every geometry made from the same root whose
+  // range strictly contains the target's, i.e. the root itself and the other derived geometries (symmetric and asymmetric ranges)
+  if (g.root >= 0)
+    for (size_t si = 0; si < geoms.size(); ++si)
+      {
+        const Geom& sg = geoms[si];
+        const bool is_root = (int)si == g.root;
+        if (!(is_root || sg.root == g.root)) continue;
+        if (!(sg.smin <= g.smin && sg.smax >= g.smax && sg.nbins() > g.nbins())) continue;
+        std::vector<SrcKind> kinds{ { 'm', 0, 0, false }, { 's', 0, 2, true } };
+        if (is_root) { kinds.push_back({ 's', 1, 0, false }); kinds.push_back({ 'f', 1, 1, false }); }
+        for (const SrcKind& kind : kinds)
+          ops.push_back({ "fill(other " + kind.str() + " with segments " + vmc::str(sg.smin) + ".." + vmc::str(sg.smax) + ")", std::string("fill_wider_projdata_") + kind.cls(), true,
+                          [&sg, kind](World& w, int id) { fill_from_other(w, sg, kind, id); } });
+      }
   return ops;
 }
 
@@ -1012,7 +1153,7 @@ static void run_config(vmc::Ctx& ctx, const Plan& plan, std::vector<Geom>& geoms
 {
   const Config& cfg = plan.cfg;
   const Geom& g = geoms[cfg.g];
-  const std::vector<Op> ops = make_ops(g, cfg.store);
+  const std::vector<Op> ops = make_ops(geoms, cfg.g, cfg.store);
   const std::vector<Probe> probes = make_probes(g);
   const bool replay = !replay_case.empty();
   const std::string cs = cfg.str();
@@ -1222,6 +1363,25 @@ static std::vector<Plan> make_plans(bool thorough, std::vector<Geom>& geoms)
         for (int sp = 0; sp < factorial(geoms[2].smax - geoms[2].smin + 1); ++sp)
           add(st, 2, sp % 2, sp, 0, FLOAT, 0, off, 1, 1, 0, 1);
     }
+  // ---- DERIVED objects (fewer segments than the data set they were cut from; symmetric and asymmetric ranges): the full alphabet, which for
+  // them includes fill(const ProjData&) from in-memory / stream / file sources that have MORE segments
+  for (int d = 0; d < NDERIVED; ++d)
+    {
+      if (!thorough && !DERIVED[d].quick) continue;
+      const int g = NBASE + d;
+      const bool big = geoms[g].nbins() > 1500; // the 5-segment TOF geometry
+      add("mem", g, 0, 0, 0, 0, 0, 0, 1, thorough ? (big ? 2 : 3) : 2, thorough ? 1 : 0, 0);
+      const std::vector<int> p3 = perms3(g);
+      for (const char* st : { "sstr", "fstr", "intf" })
+        {
+          const bool sstr = std::string(st) == "sstr", intf = std::string(st) == "intf";
+          const int off = intf ? 0 : (sstr ? 0 : 7);
+          const int depth = thorough ? (big ? 1 : 2) : (sstr ? 2 : 1);
+          add(st, g, 0, p3[2], 0, FLOAT, 0, off, 1, depth, 0, 1);
+          // (an Interfile header cannot express TOF data in the other storage order: STIR rejects that configuration)
+          add(st, g, geoms[g].tof() && !sstr ? 0 : 1, p3[1], 0, SHORT, 1, off, 2, thorough && !big ? depth : 1, 0, 1);
+        }
+    }
   return plans;
 }
 
@@ -1232,7 +1392,10 @@ int main(int argc, char** argv)
   signal(SIGPIPE, SIG_IGN);
   ctx.rule = "explicit-state BFS over write/read histories per configuration (store x geometry x storage order x segment sequence x timing sequence x on-disk type x byte order x offset x scale); "
              "every history replayed on a fresh object and fresh files; state = reference content hash (+ id of a trailing read); after the last op: touched blocks through every access path, "
-             "everything through one path, independent readers of the file, new states through every path, out-of-range requests in a forked child; a configuration is non-trivial if STIR accepts it";
+             "everything through one path, independent readers of the file, new states through every path, out-of-range requests in a forked child; a configuration is non-trivial if STIR accepts it; "
+             "the alphabet includes fill(const ProjData&) from another in-memory / stringstream / file object with the same geometry in both storage orders and - for targets whose ProjDataInfo was cut out of a larger "
+             "one with reduce_segment_range (symmetric and asymmetric ranges, TOF and non-TOF) - from every source with MORE segments: afterwards every bin of the target must equal the source's bin with the same coordinates";
+  ctx.assume("derived geometries with an asymmetric segment range use DataSymmetriesForBins_PET_CartesianGrid without the segment-swapping symmetry (the related viewgrams of the other sign do not exist there); all segment ranges contain segment 0");
   ctx.assume("values are exactly representable labels (multiples of the scale factor, within the on-disk type's range / 1.01 as find_scale_factor requires): comparisons are exact, no tolerance");
   ctx.assume("iteration order of ProjDataInMemory::begin_all() is taken to be the documented order of ProjData::copy_to/fill_from (TOF slowest, standard segment sequence, by sinogram)");
   ctx.assume("float on disk with scale factor != 1 is not part of the space: every set_* reports an error for it (write_data resets the scale to 1)");
@@ -1240,7 +1403,7 @@ int main(int argc, char** argv)
   ctx.assume("out-of-range objects for set_viewgram/set_sinogram/set_segment are built with the (assert-only) constructors for view/axial/TOF; for the segment index an object of a geometry with one more ring is used");
   ctx.assume("independent reader = second std::ifstream / ProjData::read_from_file while the writing object is alive and neither closed nor flushed by the harness");
   std::vector<Geom> geoms;
-  for (int i = 0; i < 3; ++i) geoms.push_back(make_geom(i));
+  for (int i = 0; i < NGEOMS; ++i) geoms.push_back(make_geom(i));
   uint64_t unit = 0;
   if (ctx.replaying())
     {
@@ -1252,7 +1415,8 @@ int main(int argc, char** argv)
   for (size_t i = 0; i + 1 < ctx.extra_args.size(); ++i) if (ctx.extra_args[i] == "--only") only = ctx.extra_args[i + 1];
   for (const Plan& p : make_plans(ctx.thorough(), geoms))
     {
-      if (!only.empty() && p.cfg.store != only) continue;
+      if (!only.empty() && only != "derived" && p.cfg.store != only) continue;
+      if (only == "derived" && geoms[p.cfg.g].root < 0) continue;
       if (ctx.expired()) break;
       run_config(ctx, p, geoms, unit, "");
     }
